@@ -1028,6 +1028,8 @@ func c06Sequences(w *core.W, j int) {
 			[]exp{{"one.a.example.", 600}, {"two.a.example.", 300}, {"after.a.example.", 300}}},
 		seq{"include-line-produced-by-generate-uses-the-include-FS", "$ORIGIN a.example.\n$GENERATE 0-1 $$INCLUDE gen$.db\n",
 			[]exp{{"g0.a.example.", 60}, {"g1.a.example.", 61}}},
+		seq{"ttl-boundary-values", "$ORIGIN a.example.\na 4294967295 IN A 192.0.2.1\nb IN 4294967295 A 192.0.2.1\nc 4294967295 A 192.0.2.1\nd 2147483648 A 192.0.2.1\ne 0 A 192.0.2.1\n$TTL 4294967295\nf A 192.0.2.1\n$TTL 4294967294\ng A 192.0.2.1\nh 1193046h28m15s A 192.0.2.1\n",
+			[]exp{{"a.a.example.", 4294967295}, {"b.a.example.", 4294967295}, {"c.a.example.", 4294967295}, {"d.a.example.", 2147483648}, {"e.a.example.", 0}, {"f.a.example.", 4294967295}, {"g.a.example.", 4294967294}, {"h.a.example.", 4294967295}}},
 		seq{"$TTL-wins-over-explicit", "$ORIGIN a.example.\n$TTL 300\none 600 A 192.0.2.1\ntwo A 192.0.2.2\n",
 			[]exp{{"one.a.example.", 600}, {"two.a.example.", 300}}},
 	)
